@@ -133,6 +133,33 @@ DOCS_Q += [
 ]
 
 
+def uni_pred(c, i):
+    """what an XML 1.0 attribute value can carry of domain D: xml_pred plus the non-ASCII members"""
+    return z3.Or(xml_pred(c, i), c >= 0xA0)
+
+
+DOCS_Q += [
+    # type references (section type, extends, implements) over domain D incl. its non-ASCII letters: names
+    # are compared after lower-casing, nothing else makes two spellings equal
+    [S('schema'), S('sectiontype', name='sa'), E('sectiontype'), S('abstracttype', name='as'), E('abstracttype'),
+     S('sectiontype', name='ts', extends=H(2, 'Ue'), implements=H(2, 'Ui')), E('sectiontype'),
+     S('section', type=H(2, 'Ut'), name='*', attribute='sx'), E('section'), E('schema')],
+    [S('schema'), S('sectiontype', name='ss'), S('multisection', type=H(2, 'Ut'), name='*', attribute='sx'),
+     E('multisection'), E('sectiontype'), E('schema')],
+    # a wildcard key's keyed defaults inherited by types that name another key type (directly, and two
+    # levels down)
+    [S('schema'), S('sectiontype', name='ta'), S('key', name='+', attribute='any'),
+     S('default', key=H(2, 'd1')), ('c', 'x'), E('default'), S('default', key=H(2, 'd2')), ('c', 'y'), E('default'),
+     E('key'), E('sectiontype'),
+     S('sectiontype', name='tb', extends='ta', keytype='identifier'), E('sectiontype'), E('schema')],
+    [S('schema'), S('sectiontype', name='ta', keytype='identifier'), S('multikey', name='+', attribute='any'),
+     S('default', key=H(2, 'd1')), ('c', 'x'), E('default'), S('default', key=H(2, 'd2')), ('c', 'y'), E('default'),
+     E('multikey'), E('sectiontype'),
+     S('sectiontype', name='tb', extends='ta'), E('sectiontype'),
+     S('sectiontype', name='tc', extends='tb', keytype='basic-key'), E('sectiontype'), E('schema')],
+]
+
+
 def variants(docs):
     """for every document and every symbolic attribute value: the same document with that value
     empty, and with the attribute left out"""
@@ -277,6 +304,8 @@ class C10(Harness):
             for v in flat:
                 if isinstance(v, list) and v[0] == 'h' and ('h_' + v[2]) not in out:
                     pred = nodot_pred if v[2][0] in 'Dk' and v[2][:2] in ('Dt', 'kt') else xml_pred
+                    if v[2][0] == 'U':
+                        pred = uni_pred
                     out['h_' + v[2]] = self.sym_str(eng, 'h_' + v[2], v[1], pred)
         return out
 
